@@ -169,11 +169,37 @@ def expect_raise(ctx, obj, model, types, name, where):
         ctx.violation('%s:check-wrong' % name, '%s: check() %s but %s type is unassigned' % (where, 'raised' if raised else 'did not raise', 'some' if unset else 'no'))
 
 
+class PackingFractionDensity(Density):
+    """a user's subclass: densities are handed over as packing fractions of unit spheres and converted on assignment"""
+    def __setitem__(self, types1, value):
+        Density.__setitem__(self, types1, value * 6.0 / math.pi)
+
+
+def run_subclass(ctx, types, rng):
+    rho = PackingFractionDensity(list(types))
+    model = {}
+    for step in range(4):
+        ks = [types[int(i)] for i in rng.permutation(len(types))[:int(rng.integers(1, len(types) + 1))]]
+        eta = float(rng.uniform(0.01, 0.4))
+        rho[ks[0] if (len(ks) == 1 and step % 2) else list(ks)] = eta
+        ctx.hook('density.subclass_step')
+        for t in ks:
+            model[t] = eta * 6.0 / math.pi
+        for a in types:
+            got = rho[a]
+            if (a in model) != (got is not None) or (a in model and not close(got, model[a])):
+                ctx.violation('density:value', 'user subclass converting its input: after [%r]=%r density[%s] reads %r, expected %r (conversion applied %s)' % (
+                    ks, eta, a, got, model.get(a), 'twice?' if got is not None and a in model and close(got, model[a] * 6.0 / math.pi) else 'wrongly'))
+                return
+
+
 def run_case(ctx, case):
     if case.get('kind') == 'repo_suite':
         return SUITE.run(ctx, pattern='[!C]*_test.py')       # everything but the CalcPRISM tests (17 s of solving that adds no events here)
     rng = np.random.default_rng(case['seed'])
     types = list(case['types'])
+    if case['seed'] % 10 == 0:
+        run_subclass(ctx, types, np.random.default_rng(case['seed'] + 1))
     steps = gen_steps(rng, types, int(case['nsteps']))
     rho = Density(list(types))
     dia = Diameter(list(types))
